@@ -40,6 +40,9 @@ def gen_cases(tier, seed):
                     ops += [{"op": "phys_set", "vn": vn, "vd": vd}, {"op": "phys_get"}]
                     if rng.random() < 0.3:
                         ops += [{"op": "setraw", "v": rng.randint(lo, hi)}, {"op": "phys_get"}]
+                    if rng.random() < 0.3:
+                        ops += [{"op": "setdata", "v": rng.randint(lo, hi), "how": rng.choice(["same", "other"])},
+                                {"op": "phys_get"}, {"op": "desc_get"}]
                 for v, name in descs:
                     ops += [{"op": "desc_set", "name": name}, {"op": "desc_get"}]
                 ops += [{"op": "desc_set", "name": "no such state"}, {"op": "setraw", "v": rng.choice([x for x in range(lo, hi) if x not in vals] or [vals[0]])},
@@ -71,6 +74,8 @@ def gen_cases(tier, seed):
                         sp2 = rng.choice(spell)
                         ops.append({"op": "bits_get", "bits": bits, "spelling": sp2, "name": f"field{lo}_{hi}"})
                     for sp in spell:
+                        if rng.random() < 0.5:
+                            ops.append({"op": "setdata", "v": rng.getrandbits(w), "how": rng.choice(["same", "other"])})
                         ops.append({"op": "bits_get", "bits": bits, "spelling": sp, "name": f"field{lo}_{hi}"})
                         ops.append({"op": "bits_set", "bits": bits, "spelling": sp, "name": f"field{lo}_{hi}", "val": rng.randrange(1 << n)})
                 cases.append({"kind": kind, "t": t, "fn": 1, "fd": 1, "descs": [], "bitdefs": bitdefs, "ops": ops})
